@@ -63,6 +63,29 @@ def issues_from_validation(ctx, res, label):
             ev = {}
         case = common.CASE_RE.search(f["lines"][0])
         case = case.group(1) if case else "?"
+        if ev.get("e") == "Desc":
+            sig = "PropDoc:Desc:%s:%s:ok%s:%s:%s" % (
+                ev.get("fn"), field, ev.get("ok"), ev.get("err"),
+                "".join(ev.get("chars", []))[:24])
+            props = {"C13"}
+            if ev.get("ok") == 0 or field == "ok":
+                props.add("C11")
+            what = ("descriptor %r through %s: result not explained by "
+                    "Descriptor/PropDoc (field %s); event %s; admissible %s" %
+                    (ev.get("chars"), ev.get("fn"), field,
+                     f["event"].strip()[:300], f.get("expected")))
+            # replay: the single event
+            lines = ['{"e":"Reset","case":"%s"}\n' % case.rsplit(":", 1)[0],
+                     f["event"]]
+            idx0 = int(case.split(":")[3]) if case.count(":") >= 3 else 0
+            ndesc = sum(1 for ln in f["lines"][:f["index"]] if ln.startswith('{"e":"Desc"'))
+            lines[0] = '{"e":"Reset","case":"%s:%d"}\n' % (
+                case.rsplit(":", 1)[0], idx0 + ndesc)
+            rp = ctx.save_replay("propdoc-%s.ndjson" % common.sig_hash(sig),
+                                 "".join(lines))
+            issues.append(vlib.Issue(props, sig, what, replay=rp,
+                                     detail=f["mismatch"]))
+            continue
         if evname == "End" and field == "live":
             sig = "PropDoc:End:live:" + ";".join(_episode_failing_ops(f["lines"]))
             props = {"C03"}
@@ -168,6 +191,68 @@ def run(ctx, exe, tier, seed, exh_depth=None, rand_cases=None, rand_len=None):
     return issues, stats
 
 
+def _desc_resume(tp):
+    """descriptor modes write one Reset per process (and after a leak), so the
+    crashed event is the one after the last complete Desc line"""
+    cid, n = None, 0
+    with open(tp, "rb") as fp:
+        for line in fp:
+            if line.startswith(b'{"e":"Reset"'):
+                m = common.CASE_RE.search(line.decode("utf-8", "replace"))
+                if m:
+                    cid, n = m.group(1), 0
+            elif line.startswith(b'{"e":"Desc"') and line.endswith(b"\n"):
+                n += 1
+    if cid is None:
+        return None, None
+    parts = cid.split(":")
+    crashed = int(parts[3]) + n
+    return ":".join(parts[:3] + [str(crashed)]), crashed + 1
+
+
+DESC_FNS = ["Set", "SetSub", "GetSub", "Del", "Type", "Count", "Keys", "Get"]
+
+
+def run_desc(ctx, exe, tier, seed):
+    """Descriptor language: every character sequence up to a length bound and
+    random token concatenations, through every API function."""
+    issues = []
+    stats = {"events": 0, "episodes": 0, "crashes": 0, "tlc_generated": 0,
+             "desc_sequences": 0}
+    nchars = 22
+    plan = []      # (mode, fn, param, total)
+    maxlen = 3 if tier == "quick" else 4
+    for fn in DESC_FNS:
+        for ln in range(1, maxlen + 1):
+            if ln == 4 and fn not in ("Set", "SetSub", "GetSub"):
+                continue
+            plan.append(("desc", fn, ln, nchars ** ln))
+        plan.append(("descr", fn, seed % 100000,
+                     2000 if tier == "quick" else 40000))
+    traces = []
+    for mode, fn, param, total in plan:
+        paths, crashes = common.run_sharded(
+            exe, lambda a, b, m=mode, f=fn, p=param: [m, f, str(p), str(a), str(b)],
+            total, ctx.work, "%s-%s-%s" % (mode, fn, param),
+            lambda cid: int(cid.split(":")[3]),
+            nshards=min(vlib.NCPU, max(1, total // 4000)), resume=_desc_resume)
+        issues += issues_from_crashes(ctx, crashes, "descriptor %s/%s" % (mode, fn))
+        stats["crashes"] += len(crashes)
+        stats["desc_sequences"] += total
+        for p in paths:
+            common.strip_crashed_episodes(p)
+        traces += paths
+    tr = common.concat(traces, os.path.join(ctx.work, "desc-all.ndjson"))
+    res = vlib.validate_sharded("PropDocTrace.tla", "PropDocTrace.cfg", tr,
+                                ctx.work, shards=vlib.NCPU)
+    ctx.machinery_errors += res["errors"]
+    issues += issues_from_validation(ctx, res, "descriptor language")
+    stats["events"] += res["events"]
+    stats["episodes"] += res["episodes"]
+    stats["tlc_generated"] += res["generated"]
+    return issues, stats
+
+
 def replay(ctx, exe, path):
     with open(path) as fp:
         first = fp.readline()
@@ -181,7 +266,9 @@ def replay(ctx, exe, path):
     else:
         cid = m.group(1)
     parts = cid.split(":")
-    if parts[0] == "exh":
+    if parts[0] in ("desc", "descr"):
+        args = [parts[0], parts[1], parts[2], parts[3], str(int(parts[3]) + 1)]
+    elif parts[0] == "exh":
         args = ["exh", parts[1], parts[2], str(int(parts[2]) + 1)]
     else:
         args = ["rand", parts[1], parts[2], str(int(parts[2]) + 1), parts[3]]
